@@ -105,6 +105,7 @@ def ddsErrJson : DdsErr → Json
   | .objectNotFound => dds "OBJECT_PATH_NOT_FOUND"
   | .missingArg => Json.mkObj [("kind", .str "dds"), ("code", .null)]
   | .missingPaths => Json.mkObj [("kind", .str "dds"), ("code", .null)]
+  | .loadBeforeProduce => Json.mkObj [("kind", .str "dds"), ("code", .null)]
   | .assertion => exc "AssertionError"
   | .notImplemented => exc "NotImplementedError"
   | .keyError => exc "KeyError"
